@@ -96,7 +96,8 @@ Never ==
                 Stmt("n_share_key_lock", ""),                                             \* lock on another thread through a shared key
                 Stmt("n_clone_key", ""), Stmt("n_copy_key", ""),                          \* duplicate the key
                 Stmt("n_lock_borrowed_key", "m1"), Stmt("n_lock_borrowed_key", "ct"),     \* guard API with a borrowed key
-                Stmt("n_lock_shared_ref_key", "m1")}
+                Stmt("n_lock_shared_ref_key", "m1"),
+                Stmt("n_scoped_shared_ref_key", "m1"), Stmt("n_scoped_shared_ref_key", "ct")}   \* scoped call with &key
         ELSE {})
   \cup (IF g = "live" THEN
           {Stmt("n_guard_field", gx),                                                     \* private key field of the guard
@@ -117,6 +118,9 @@ Never ==
            Stmt("n_unsafe_raw", ""), Stmt("n_unsafe_guard", ""), Stmt("n_unsafe_data_mut", ""),
            Stmt("n_unsafe_read_guard", ""), Stmt("n_unsafe_raw_lock", "")}
           \cup {Stmt("n_scoped_escape", x) : x \in Scopables}                            \* D1: reference escaping a scoped closure
+          \cup {Stmt("n_scoped_try_escape", x) : x \in Scopables}
+          \cup {Stmt("n_clone_hold", x) : x \in {"mutexref", "readref", "writeref"}}    \* duplicate a hold out of a collection guard
+          \cup {Stmt("n_clone_guard", x) : x \in {"m1", "rw_r", "rw_w", "ct", "pm"}}       \* duplicate a key-holding guard
         ELSE {})
 
 \* ------------------------------------------------------------- emission
